@@ -684,7 +684,7 @@ fn main() {
     let mut corpus: Vec<Vec<String>> = vec![
         vec!["ads$domain=\u{200d}.com".into()],
         vec!["|ws://$~websocket".into()],
-        vec!["^".into()],
+        vec!["*^".into()],
         vec!["@@||x.com^$generichide".into(), "##.ad".into(), "example.com##.ad".into(), "example.com#@#.ad".into(), "@@||good.com^".into(), "||ads.net^".into()],
         vec!["||example.com^$document".into(), "ads$important".into(), "@@ads$image".into(), "/ads[0-9]/".into()],
     ];
